@@ -161,6 +161,23 @@ def fromLast (df : DataFormat) (t : Tensor) : Tensor :=
 
 /-! ## the primitives on tensors -/
 
+/-- NCW → NWC and back (1-D layers; `_preprocess_conv1d_input` transposes on CPU, the NCW kernels
+    compute the same function) -/
+def toLast1 (df : DataFormat) (t : Tensor) : Tensor :=
+  match df with | .channelsLast => t | .channelsFirst => transpose t [0, 2, 1]
+def fromLast1 (df : DataFormat) (t : Tensor) : Tensor :=
+  match df with | .channelsLast => t | .channelsFirst => transpose t [0, 2, 1]
+
+/-- TensorFlow's `GetWindowedOutputSize` rejects a VALID window when
+    `(n - extent + stride) / stride` (C++ division, truncating toward zero) is negative, i.e. when
+    `n + 2·stride ≤ extent` ("Computed output size would be negative"); a numerator in `(-stride, 0)`
+    gives an EMPTY output (`convOutLen` = 0).  The stock layers additionally refuse such shapes in
+    `build`; a later call of a built layer only meets this kernel check. -/
+def windowRejected (p : Padding) (n k s d : Nat) : Bool :=
+  match p with
+  | .valid => n + 2 * s ≤ kext k d
+  | _ => false
+
 def tDotC (x w : Tensor) : Tensor :=
   match w.shape, x.shape.getLast? with
   | [n, m], some n' =>
@@ -175,17 +192,18 @@ def tDotC (x w : Tensor) : Tensor :=
     else Tensor.bad
   | _, _ => Tensor.bad
 
-def conv1dC (g : ConvGeom) (x ker : Tensor) : Tensor :=
+def conv1dC (g : ConvGeom) (x0 ker : Tensor) : Tensor :=
+  let x := toLast1 g.df x0
   match x.shape, ker.shape with
   | [bn, n, c], [k, cg, fo] =>
     let s := g.strides.headD 1
     let d := g.dilation.headD 1
-    if cg == 0 || c % cg != 0 || fo % (c / cg) != 0 then Tensor.bad else
+    if cg == 0 || c % cg != 0 || fo % (c / cg) != 0 || windowRejected g.padding n k s d then Tensor.bad else
     let groups := c / cg
     let fpg := fo / groups
     let on := convOutLen g.padding n k s d
     let before := padBefore g.padding n k s d
-    Tensor.ofFn [bn, on, fo] (fun idx =>
+    fromLast1 g.df <| Tensor.ofFn [bn, on, fo] (fun idx =>
       match idx with
       | [b, o, f] => conv1dAt n k s d before cg fpg (fun t ch => x.at [b, t, ch])
                         (fun j ci ff => ker.at [j, ci, ff]) o f
@@ -200,7 +218,8 @@ def conv2dC (g : ConvGeom) (x0 ker : Tensor) : Tensor :=
   | [bn, h, w, c], [kh, kw, cg, fo] =>
     let (sh, sw) := g2 g.strides
     let (dh, dw) := g2 g.dilation
-    if cg == 0 || c % cg != 0 || fo % (c / cg) != 0 then Tensor.bad else
+    if cg == 0 || c % cg != 0 || fo % (c / cg) != 0 || windowRejected g.padding h kh sh dh ||
+       windowRejected g.padding w kw sw dw then Tensor.bad else
     let groups := c / cg
     let fpg := fo / groups
     let oh := convOutLen g.padding h kh sh dh
@@ -220,7 +239,8 @@ def dwConv2dC (g : ConvGeom) (x0 ker : Tensor) : Tensor :=
   | [bn, h, w, c], [kh, kw, c', dm] =>
     let (sh, sw) := g2 g.strides
     let (dh, dw) := g2 g.dilation
-    if c != c' || dm == 0 then Tensor.bad else
+    if c != c' || dm == 0 || windowRejected g.padding h kh sh dh || windowRejected g.padding w kw sw dw
+      then Tensor.bad else
     let oh := convOutLen g.padding h kh sh dh
     let ow := convOutLen g.padding w kw sw dw
     let bh := padBefore g.padding h kh sh dh
@@ -300,6 +320,18 @@ def unstackC (i : Nat) (x : Tensor) : Tensor :=
 
 def insertAt (l : List Nat) (i v : Nat) : List Nat := l.take i ++ [v] ++ l.drop i
 
+/-- H·W of a rank-4 shape (`compute_pooling_area`: `shape[1]*shape[2]` / `shape[2]*shape[3]`) -/
+def areaHW (df : DataFormat) (sh : List Nat) : Nat :=
+  match df with
+  | .channelsLast => sh.getD 1 0 * sh.getD 2 0
+  | .channelsFirst => sh.getD 2 0 * sh.getD 3 0
+
+/-- the python scalar `1.0 / pool_area` of the tensor handed to THIS call (rank 4, non-empty image) -/
+def recipAreaC (df : DataFormat) (x : Tensor) : Tensor :=
+  if x.shape.length == 4 && areaHW df x.shape != 0 then
+    { Tensor.scalar (1 / (areaHW df x.shape : Rat)) with ok := x.ok }
+  else Tensor.bad
+
 def op1C : Op1 → Tensor → Tensor
   | .expandDims ax, x => x.reshape (insertAt x.shape ax 1)
   | .squeeze ax, x => if x.shape.getD ax 0 == 1 then x.reshape (x.shape.eraseIdx ax) else Tensor.bad
@@ -321,6 +353,7 @@ def op1C : Op1 → Tensor → Tensor
   | .unstack i, x => unstackC i x
   | .oneMinus, x => x.map (1 - ·)
   | .castFloatx, x => x
+  | .recipAreaHW df, x => recipAreaC df x
 
 def op2C : Op2 → Tensor → Tensor → Tensor
   | .dot, x, w => tDotC x w
